@@ -166,7 +166,7 @@ func Kinds() []*Kind {
 			case 1:
 				k, n = 1, 1
 			case 2:
-				k, n = 5, 2
+				k, n = 3, 2 // a batch completes within three writes
 			}
 			f, err := flexfec.NewFecInterceptor(flexfec.NumMediaPackets(k), flexfec.NumFECPackets(n))
 			return mk(f, err, nil)
